@@ -330,6 +330,14 @@ def directed(run):
     for ps in PARAMS:
         add("params%s" % (ps,), store_kind="ref", user={"script": [USER_OK] * 2},
             ops=[reg_op(rng, params=ps), reg_op(rng, params=ps, origin="https://other.org", rp_id=None)])
+    # the same user id registered at several RPs into one store: every success adds exactly one credential and leaves the others
+    for kind in ("memory", "ref", "arc_mutex_memory", "arc_rwlock_memory"):
+        uid = b"\x42" * 8
+        add("same-user-id/%s" % kind, store_kind=kind, user={"script": [USER_OK] * 4},
+            ops=[reg_op(rng, origin="https://www.example.com", rp_id="example.com", user_id=uid),
+                 reg_op(rng, origin="https://shop.other.org", rp_id=None, user_id=uid),
+                 reg_op(rng, origin="https://login.example.com", rp_id="login.example.com", user_id=uid),
+                 reg_op(rng, origin="https://www.example.com", rp_id="example.com", user_id=uid)])
     # entries whose `type` is not "public-key" (the library looks at `alg` only): a non-empty list stays non-empty -
     # no silent fall-back to the defaults - whatever the types are
     for ps, tys in [((-257,), (False,)), ((-257, -8), (False, False)), ((-7,), (False,)), ((-257, -7), (False, True)), ((-257, -7), (True, False)),
